@@ -348,4 +348,23 @@ example : Ideal (idealCrypto [⟨[1], List.replicate 12 7, [1, 2, 3]⟩])
     (one (idealCrypto [⟨[1], List.replicate 12 7, [1, 2, 3]⟩]) [1] (List.replicate 12 7) [1, 2, 3]) :=
   C37_ideal_instance _
 
+/-! ### statelessness -/
+
+/-- **Decrypt is a pure function of (ciphertext, password)**: the outcomes of ANY sequence of calls
+    on one stored buffer (right password, wrong password, tampered copies, in any order) are the
+    single-call outcomes on the original buffer, and the buffer is unchanged at the end.  In
+    particular a failed attempt cannot spoil a later attempt with the right password. -/
+theorem C37_decrypt_pure {α : Type} (f : Bytes → Bytes → Out α) (buf : Bytes) (ops : List SeqOp) :
+    runOps f buf ops = (ops.map (SeqOp.outcome f buf), buf) := by
+  induction ops with
+  | nil => rfl
+  | cons op rest ih => simp [runOps, ih]
+
+/-- after any sequence of attempts the right password still opens the stored blob -/
+theorem C37_right_password_after_any_attempts {C : Crypto} {pw nonce msg : Bytes}
+    (h : Ideal C (one C pw nonce msg)) (hn : nonce.length = nonceSize) (ops : List SeqOp) :
+    (runOps (decrypt C) (stored C pw nonce msg) (ops ++ [.onBuf pw])).1.getLast? = some (.ok msg) := by
+  rw [C37_decrypt_pure]
+  simp [SeqOp.outcome, C37_single_roundtrip h hn]
+
 end Gossamer.C37
